@@ -294,7 +294,8 @@ NameInverse ==
 
 \* action properties (every transition)
 Legal        == [][obs'.legal]_vars
-Stable       == [][\A i \in DOMAIN reg : i \in DOMAIN reg' /\ reg'[i] = reg[i]]_vars
+\* within one process ("boot" starts a new one) no entry is ever lost or changed
+Stable       == [][obs'.a # "boot" => \A i \in DOMAIN reg : i \in DOMAIN reg' /\ reg'[i] = reg[i]]_vars
 RefuseFrame  == [][obs'.a \in {"addbasic", "addgeneric", "addiface", "addmeta"} /\ obs'.exp.ret = "refused"
                     => reg' = reg /\ RegOfTables' = RegOfTables]_vars
 RefuseKeeps  == [][obs'.a \in {"addbasic", "addgeneric", "addiface", "addmeta"} /\ obs'.exp.ret = "refused"
